@@ -270,7 +270,7 @@ def run(ctx):
             p = int(rng.integers(0, 7)); mult = int(rng.integers(1, max(p, 1) + 1))
             mk_case(p, a, b, n, mult, with_vals=True)
         ctx.count('make_knots grid intervals', 1)
-    for _ in range(300 if quick else 5000):
+    for _ in range(300 if quick else 3000):
         mag = 10.0 ** rng.uniform(-6, 6)
         a = float(rng.uniform(-1, 1) * mag)
         b = a + float(10.0 ** rng.uniform(-6, 6))
@@ -286,7 +286,7 @@ def run(ctx):
     ctx.sample({'make_knots': S.req[5][:160], 'implementation': S.exp[5][:160]})
 
     # ------------------------------------------------------------------ queries on arbitrary knot vectors
-    nkv = 600 if quick else 8000
+    nkv = 600 if quick else 5000
     kvs = []
     for _ in range(nkv):
         k, p, style = gen_kv(rng)
@@ -450,7 +450,7 @@ def run(ctx):
     # ------------------------------------------------------------------ __eq__
     asym = None
     neq = 0
-    for (k, p, style) in kvs[: (300 if quick else 3000)]:
+    for (k, p, style) in kvs[: (300 if quick else 2000)]:
         K1 = bspline.KnotVector(k.copy(), p)
         variants = [(k.copy(), p), (k.copy(), p + 1), (k[:-1].copy(), p)]
         for rel in (1e-12, 3e-9, 0.9e-8, 1.1e-8, 1e-7, 1e-5):
